@@ -31,7 +31,7 @@ CONSTANTS Accepted,      \* accepted setup-file versions, e.g. {"v1", "v2"}
           Rejected,      \* rejected versions, named by failing stage: {"bad:load", "bad:find", ...}
           TruncPoints,   \* truncation points of a reference output (strings; bound to byte offsets by the harness)
           Spellings,     \* how the input is named: "rel", "abs", "gofile", "both", "nested"
-          Cwds,          \* working directory of the process: "pkg", "root", "sibling"
+          Cwds,          \* working directory of the process: "pkg", "root", "sibling" (inside the module), "outside" (no module there)
           RecordHist,    \* TRUE: keep the action history (simulation walks); FALSE: exhaustive graph
           MaxHist,
           FlagSets,      \* the flag records explored by Run
